@@ -23,7 +23,7 @@ EXPLANATION = (
     "row-set equality on real data; MultiIndex label round trip through str/eval."
 )
 LEVEL_RULE = "one obligation per backend validate / fold step / typestate use"
-FLOORS = {"R1": 5, "R2": 7, "R3": 2, "R4": 5, "R5": 1}
+FLOORS = {"R1": 5, "R2": 7, "R3": 2, "R4": 5, "R5": 1, "R6": 3}
 
 
 def _validates(ix):
@@ -271,10 +271,69 @@ def r5_no_rowwise_dropna_before_reshape(ctx):
            f.loc(bad[0][0]) if bad else f.loc(f.node))
 
 
+LABEL_DESTROYING = {"reset_index", "to_numpy", "tolist", "to_list"}
+
+
+def r6_labels_survive_delegation(ctx):
+    """drop_invalid_rows removes `check_obj.index.isin(<index labels of the failure cases>)`.  The pandas component
+    backends run their checks on an object derived from the working object (a column, the index as a series, a frame of
+    the index levels); the failure cases carry *that* object's index, so the derived object has to keep the labels of
+    the working object.  Replacing them by positions (`reset_index(drop=True)`, rebuilding from `.values`) makes the
+    drop remove the rows whose label happens to equal the position of an invalid row, and keep the invalid ones."""
+    from ..util import same_module_helpers
+    ix = ctx.ix
+    m = ix.module("pandera/backends/pandas/components.py")
+    n = 0
+    for c in m.classes.values():
+        for f0 in c.methods.get("validate", []):
+            f = expanded(ix, f0)
+            ex = Expander(f.node)
+            for call in calls_in(f.node, nested=True):
+                if not (callee_last(call) == "validate" and isinstance(call.func, ast.Attribute) and isinstance(call.func.value, ast.Call)
+                        and callee_last(call.func.value) == "super"):
+                    continue
+                if not call.args:
+                    continue
+                n += 1
+                ctx.touched(f0)
+                data = call.args[0]
+                exprs = list(ex.closure(data))
+                # follow a private helper that builds the derived object (MultiIndex: self.__to_dataframe(check_obj.index))
+                for d in list(exprs):
+                    for x in ast.walk(d):
+                        if isinstance(x, ast.Call) and isinstance(x.func, ast.Attribute) and isinstance(x.func.value, ast.Name) and x.func.value.id in ("self", "cls"):
+                            h = c.lookup(x.func.attr) or c.lookup(f"_{c.name}{x.func.attr}")
+                            if h is not None and h.module is m:
+                                exprs += [r.value for r in walk_no_nested(h.node) if isinstance(r, ast.Return) and r.value is not None]
+                                hx = Expander(h.node)
+                                exprs += [e2 for r in walk_no_nested(h.node) if isinstance(r, ast.Return) and r.value is not None for e2 in hx.closure(r.value)]
+                bad = []
+                for d in exprs:
+                    for x in ast.walk(d):
+                        if isinstance(x, ast.Call) and callee_last(x) in LABEL_DESTROYING:
+                            if callee_last(x) == "reset_index":
+                                dr = kw(x, "drop")
+                                if not (isinstance(dr, ast.Constant) and dr.value is True):
+                                    continue
+                            bad.append(x)
+                        elif isinstance(x, ast.Attribute) and x.attr == "values" and not isinstance(parent(x), ast.Call):
+                            bad.append(x)
+                ctx.ob("R6", f0, f"{f0.short}: the object handed to the delegated validation keeps the labels of the working object", not bad,
+                       f"`{txt(data)[:60]}` preserves the index" if not bad else
+                       f"`{txt(data)[:80]}` replaces the labels by positions (`{txt(bad[0])[-40:]}`): failure cases of index checks then name positions, and "
+                       "drop_invalid_rows removes the rows whose *label* equals such a position while the invalid rows stay "
+                       "(DataFrameSchema(index=Index(int, Check.lt(25)), drop_invalid_rows=True) on index [3, 20, 30, 2] returns rows 3, 20, 30)",
+                       f0.loc(call))
+    ctx.stats["delegated_validations"] = n
+    if n < 3:
+        raise AnalysisError(f"pandas components: expected 3 delegated validations (column, index, multi-index), found {n}")
+
+
 def run(ctx):
     r1_precondition(ctx)
     r2_shape(ctx)
     r3_typestate(ctx)
     r4_wiring(ctx)
     r5_no_rowwise_dropna_before_reshape(ctx)
+    r6_labels_survive_delegation(ctx)
     ctx.assume("Index.isin / DataFrame.loc / LazyFrame.filter have their documented meaning")
